@@ -196,7 +196,8 @@ class Ctx:
         kf = VERIF / 'known_findings.json'
         allf = list(json.loads(kf.read_text())['findings']) if kf.exists() else []
         for extra in sorted((VERIF / 'known_findings.d').glob('*.json')):   # staging area, merged by hand
-            allf += json.loads(extra.read_text())['findings']
+            d = json.loads(extra.read_text())
+            allf += d['findings'] if isinstance(d, dict) else d
         self.findings = [f for f in allf if f['property'] == prop]
 
     # ---- logging
